@@ -9,8 +9,8 @@ import (
 
 // Name pools are small on purpose: collisions between the two sides of a pair are the point.
 var (
-	TableNames = []string{"t1", "t2", "users", "Orders", "a b"}
-	ColNames   = []string{"id", "a", "b", "c", "name", "Val", "x y", "ts"}
+	TableNames = []string{"t1", "t2", "users", "Orders", "a b", "somewhere"}
+	ColNames   = []string{"id", "a", "b", "c", "name", "Val", "x y", "ts", "WHEREABOUTS"}
 	// Types: the full sqlite.TypeRegistry catalogue with a parameter grid.
 	Types = []string{
 		"integer", "int", "tinyint", "smallint", "mediumint", "bigint", "unsigned big int", "int2", "int8", "uint64",
@@ -205,6 +205,7 @@ func genIndex(t *rapid.T, tb *Table, name string, o Opts) Index {
 		ix.Where = rapid.SampledFrom([]string{"%s IS NOT NULL", "%s > 0", "%s <> 'x'"}).Draw(t, "wherex")
 		ix.Where = fmt.Sprintf(ix.Where, qcol(c))
 	}
+	ix.LowerKW = rapid.IntRange(0, 2).Draw(t, "lowerkw") == 0
 	return ix
 }
 
